@@ -3,10 +3,11 @@
 import glob, json
 kf = json.load(open("known_findings.json"))
 have = {f["key"] for f in kf["findings"]}
+fixed_text = " ".join(kf.get("fixed", []))
 for p in sorted(glob.glob("cbc/proposed_findings_*.json")):
     for f in json.load(open(p)):
-        if f["key"] in have:
-            continue
+        if f["key"] in have or f["key"] in fixed_text:
+            continue  # already listed, or recorded as fixed (a fixed entry suppresses nothing and must not come back as a finding)
         have.add(f["key"])
         kf["findings"].append({k: f[k] for k in ("key", "property", "site", "what", "witness", "observed", "expected") if k in f})
 kf["findings"].sort(key=lambda f: f["key"])
